@@ -208,9 +208,13 @@ def firstTsr : List Ev → Result
   | .tsr r ps :: _ => .found r ps true
   | _ :: evs => firstTsr evs
 
+def nonTsr : Ev → Bool
+  | .tsr _ _ => false
+  | _ => true
+
 /-- "return on the first direct match; otherwise the first trailing-slash candidate" -/
 def pick (evs : List Ev) : Result :=
-  match evs.find? (fun e => match e with | .tsr _ _ => false | _ => true) with
+  match evs.find? nonTsr with
   | some (.direct r ps) => .found r ps false
   | some _ => .bad
   | none => firstTsr evs
